@@ -31,7 +31,7 @@ func init() {
 		}
 		us = append(us, Search{Sc: Rewards{Fraction: "0.5", Period: 1, Prov: true}, Depth: depth})
 		return CheckSpec{Level: "model_checking", Rule: searchRule, Assumptions: append([]string{
-			"fees reach the consumer's fee collector through the bank call the ante handler makes; the reward transfer runs through the real ibc-go transfer keeper (escrow, voucher mint) and the provider's transfer middleware; packet relay and channel handshakes through the Net shim",
+			"fees reach the consumer's fee collector through the bank call the ante handler makes; the reward transfer runs through the real ibc-go transfer keeper (escrow, voucher mint) and the provider's transfer middleware; packet relay and channel handshakes through ibc-go's real core message server (proof oracle for Merkle verification)",
 			"the consumer is honest (the reward memo carries its own consumer id)",
 		}, commonAssumptions...), Budget: budget, Units: us,
 			MustSee: []string{"rewards-sent", "rewards-credited", "payout", "in-set-but-not-yet-eligible", "credit-in-disallowed-denom-kept", "due-but-channel-closed", "payout-with-nobody-eligible", "two-denoms-in-one-transmission"}}
